@@ -408,6 +408,19 @@ def cases(tier, seed):
         for s in X.shapes(k, ["^", "*", "-", "AND"], ["-"]):
             e = X.fill(s, lit_leaves)
             yield {"ctx": "assign", "e": e}
+    # a variable combined with a small constant (the operands somebody might special-case: X^2, X*1, X+0, X/2, 2*X) under
+    # every surrounding operator, on either side, without parentheses
+    small = [X.num(1), X.num(2), X.num(3), ("num", 0.5, [".5"]), ("num", 2.0, ["2.0"]), X.num(0)]
+    for outer in X.ARITH:
+        for inner in X.ARITH:
+            for lit in (small if tier == "thorough" else small[:4]):
+                vl = ("bin", inner, ("var", "A"), lit)
+                lv = ("bin", inner, lit, ("var", "A"))
+                for e in (("bin", outer, ("var", "C"), vl), ("bin", outer, vl, ("var", "C")), ("bin", outer, ("var", "C"), lv)):
+                    yield {"ctx": "assign", "e": e}
+                if tier == "thorough":
+                    yield {"ctx": "if_noelse", "e": ("bin", ">", ("bin", outer, ("var", "C"), vl), X.num(3))}
+                    yield {"ctx": "assign", "e": ("bin", outer, ("bin", outer, ("var", "B"), vl), ("var", "C"))}
     if tier == "thorough":
         for s in X.shapes(4, X.ARITH + X.LOGIC, ["-", "NOT"]):
             e = X.fill(s, NUM_LEAVES)
